@@ -287,6 +287,8 @@ fn generate_e(seed: u64, quick: bool) -> Value {
         "cut": g.rng.below(100_000),
         "cwd": cwd,
         "spelling": spelling,
+        // the program may also arrive through a named pipe: a file whose size says nothing
+        "file_kind": if file_fault == "none" && g.rng.chance(1, 15) { "fifo" } else { "regular" },
         "file_name": if g.rng.chance(1, 4) { *g.rng.pick(&["my program.scm", "прог.scm", "main", "a.b.scm", "MAIN.SCM"]) } else { "main.scm" },
     })
 }
@@ -488,6 +490,15 @@ fn execute_e(case: Value) -> RunResult {
             text_bytes.truncate(at);
             std::fs::write(&file, &text_bytes).unwrap();
         }
+        _ if case["file_kind"].as_str() == Some("fifo") => {
+            use std::os::unix::ffi::OsStrExt;
+            let c = std::ffi::CString::new(file.as_os_str().as_bytes()).unwrap();
+            if unsafe { libc::mkfifo(c.as_ptr(), 0o600) } != 0 {
+                crate::sandbox::remove_dir(&root);
+                res.invalid = Some("cannot create a named pipe".into());
+                return res;
+            }
+        }
         _ => std::fs::write(&file, &text_bytes).unwrap(),
     }
     // from here on the run is judged like a missing file (the file itself is in place)
@@ -527,7 +538,44 @@ fn execute_e(case: Value) -> RunResult {
         case["seed"], hash_seed, case["cwd"], given, case["crlf"], case["final_newline"], file_fault
     )));
     // ---- the real binary
+    // a named pipe needs somebody at the other end: a writer that waits for the program to open
+    // the file, hands over the text and closes
+    let fifo_stop = std::sync::Arc::new(std::sync::atomic::AtomicBool::new(false));
+    let fifo_writer = if case["file_kind"].as_str() == Some("fifo") && file_fault == "none" {
+        let path = file.clone();
+        let bytes = text_bytes.clone();
+        let stop = fifo_stop.clone();
+        res.count("file_kind.fifo");
+        Some(std::thread::spawn(move || {
+            use std::io::Write;
+            use std::os::unix::fs::OpenOptionsExt;
+            loop {
+                if stop.load(std::sync::atomic::Ordering::SeqCst) {
+                    return;
+                }
+                match std::fs::OpenOptions::new().write(true).custom_flags(libc::O_NONBLOCK).open(&path) {
+                    Ok(mut f) => {
+                        use std::os::unix::io::AsRawFd;
+                        unsafe {
+                            let fl = libc::fcntl(f.as_raw_fd(), libc::F_GETFL);
+                            libc::fcntl(f.as_raw_fd(), libc::F_SETFL, fl & !libc::O_NONBLOCK);
+                        }
+                        let _ = f.write_all(&bytes);
+                        return;
+                    }
+                    // nobody has opened the other end yet
+                    Err(_) => std::thread::sleep(Duration::from_micros(300)),
+                }
+            }
+        }))
+    } else {
+        None
+    };
     let child = run_cli_opt(&cwd, hash_seed, &[given.clone()], Duration::from_secs(90), remove_cwd);
+    fifo_stop.store(true, std::sync::atomic::Ordering::SeqCst);
+    if let Some(h) = fifo_writer {
+        let _ = h.join();
+    }
     // the in-process side cannot stand in a directory that is gone; with an absolute FILE the
     // root directory is as good
     let cwd = if remove_cwd { PathBuf::from("/") } else { cwd };
@@ -731,7 +779,7 @@ fn execute_e(case: Value) -> RunResult {
         .map(|a| a.iter().map(|i| i["kind"].as_str().unwrap_or("").to_string()).collect::<Vec<_>>().join(","))
         .unwrap_or_default();
     res.sched_hash = fnv64(
-        format!("{}|{}|{}|{}|{}|{}|{}", kinds, case["cwd"], case["spelling"], case["crlf"], case["final_newline"], file_fault, case["file_name"]).as_bytes(),
+        format!("{}|{}|{}|{}|{}|{}|{}", kinds, case["cwd"], case["spelling"], case["crlf"], case["final_newline"], file_fault, format!("{}{}", case["file_name"], case["file_kind"])).as_bytes(),
     );
     res.state_hashes.push(fnv64(&child.stdout));
     res.steps = case["items"].as_array().map(|a| a.len() as u64).unwrap_or(0);
